@@ -179,7 +179,10 @@ def check_usedness_predicates(mir, res, rule):
             continue
         m2 += 1
         r_ = canon(Exprs(f).local(0))
-        ok = re.match(r"^Iterator@Iter::any\(slice::iter\(param1\.fields\), const\(fn:[\w:]+::is_used\)\)$", r_) is not None
+        from .roles import roles_of
+        per_field = [f_.path for f_ in roles_of(mir).field_is_used]
+        m_ = re.match(r"^Iterator@Iter::any\(slice::iter\(param1\.fields\), const\(fn:([\w:]+)\)\)$", r_)
+        ok = m_ is not None and m_.group(1) in per_field
         res.inst(rule, "usedness|%s" % f.path, f.where, True, r_[:120])
         if not ok:
             res.violate(rule, "usedness|%s" % f.path, f.where, "`%s` must be `any` of the per-field predicate over all fields; found `%s`" % (f.path, r_[:160]))
